@@ -11,7 +11,7 @@ opts (all optional):
   post_insert: list -> insert_absence_time_list(list) after the run; post_remove: remove_absence_time_list() after the run; reload: write/read JSON after the run and look at the loaded project;
   unit_time: passed to simulate(); backward: observe backward_simulate() instead (options due, rev);
   flags: (state, log) initialisation flags of the observed call on a never-simulated model; error_tol: passed to simulate();
-  presim_back: number of earlier backward_simulate() calls on the same object;
+  presim_back: number of earlier backward_simulate() calls on the same object (presim_back_rev=False: with reverse_log_information=False);
   presim_queries: after the earlier runs all read-only helpers (get_*_list, extract_*, chart/network data, print_*) are called once;
   resume_via_json: with resume_from, the stopped project is written to JSON, read into a new project and continued there.
 """
@@ -200,7 +200,7 @@ def run(spec, opts=None, model=None, call=None):
                 pk["max_time"] = opts["presim_cut"]  # the earlier run was stopped by max_time (and the project is simply simulated again afterwards)
             ex.m.project.simulate(**pk)
         for _ in range(int(opts.get("presim_back") or 0)):
-            ex.m.project.backward_simulate(max_time=opts.get("max_time", 200), absence_time_list=[])  # an earlier backward run on the same object
+            ex.m.project.backward_simulate(max_time=opts.get("max_time", 200), absence_time_list=[], reverse_log_information=bool(opts.get("presim_back_rev", True)))  # an earlier backward run on the same object
         if opts.get("presim_queries"):
             # between the earlier run(s) and the observed one every read-only helper is called once with default arguments
             read_only_calls(ex.m.project)
